@@ -362,10 +362,20 @@ func checkC05(sim *core.Sim, prop string, pp PeerPlan, pr *peerRun) {
 			inbN[e.MID]++
 		}
 	}
+	unoffered := map[string]bool{}
+	for _, mid := range pr.peer.Unoffered {
+		unoffered[mid] = true // mail that reached the peer's outbox after the session had ended (Config.Late)
+	}
 	for _, mid := range pr.peerMIDs {
 		want := pp.Lib.Policy[mid]
 		if want == "" {
 			want = "+"
+		}
+		if unoffered[mid] {
+			if inbN[mid] != 0 {
+				sim.Violate(prop, "outcome", "inbound-never-offered", "peer message %s was never proposed but handed to the handler", mid)
+			}
+			continue
 		}
 		got, answered := pr.peer.GotAnswers[mid]
 		if !answered {
@@ -416,7 +426,7 @@ func genC05(tier string, r *core.Rand) PeerPlan {
 	if !pp.LibMaster { // peer is master
 		if r.Chance(0.4) {
 			for i, n := 0, r.Range(1, 3); i < n; i++ {
-				p.Motd = append(p.Motd, core.Choice(r, []string{"Welcome to the reference RMS", "*** MTD Stats Total connects = 2580 Total messages = 3900", "Brevity is the soul of wit", "Hello LA5NTA [not a sid"}))
+				p.Motd = append(p.Motd, core.Choice(r, []string{"Welcome to the reference RMS", "*** MTD Stats Total connects = 2580 Total messages = 3900", "Brevity is the soul of wit", "Hello LA5NTA [not a sid", "Sysop is [LA1B-10], 73!", "[News-1] bulletins for [ALL] on 2026-09-26"}))
 			}
 		}
 		p.Prompt = core.Choice(r, []string{"CMS>", ">", "Brentwood CMS >", b.Call + ">"})
@@ -477,6 +487,9 @@ func genC05(tier string, r *core.Rand) PeerPlan {
 	}
 	p.EarlyFQ = r.Chance(0.15)
 	p.HastyFQ = r.Chance(0.15)
+	if !p.EarlyFQ && r.Chance(0.15) {
+		p.Late = r.Range(1, 3) // the peer's mail arrives during the session
+	}
 	if !pp.LibMaster && r.Chance(0.2) {
 		// a challenge: the ;FW line then carries address|hash entries
 		p.Challenge = fmt.Sprintf("%08d", r.Intn(100000000))
@@ -520,6 +533,12 @@ func execC05(t *testing.T, prop string, raw json.RawMessage, trace bool) core.Ou
 		}
 		if pp.Peer.EarlyFQ {
 			sim.Probe("early-fq")
+		}
+		if pr.peer.HeldTurns > 0 {
+			sim.Probe("peer-said-ff-before-its-mail-arrived")
+			if len(pr.peer.Unoffered) < len(pr.peerMIDs) {
+				sim.Probe("peer-proposed-after-having-said-ff")
+			}
 		}
 		if len(pp.Peer.CommentAt) > 0 {
 			sim.Probe("comments")
